@@ -461,6 +461,8 @@ class CuckooFilter:
 
     def _expand_logic(self, extra_fingerprint):
         """the logic to acutally expand the cuckoo filter"""
+        # keep the current table: if the larger one cannot hold everything we go back to it
+        previous = (self._cuckoo_capacity, self._buckets, self._inserted_elements)
         # get all the fingerprints
         fingerprints = self._setup_expand(extra_fingerprint)
 
@@ -468,6 +470,7 @@ class CuckooFilter:
             idx_1, idx_2 = self._indicies_from_fingerprint(finger)
             res = self._insert_fingerprint(finger, idx_1, idx_2)
             if res is not None:  # again, this *shouldn't* happen
+                self._cuckoo_capacity, self._buckets, self._inserted_elements = previous
                 msg = "The CuckooFilter failed to expand"
                 raise CuckooFilterFullError(msg)
 
